@@ -208,13 +208,13 @@ def make_int_op(op, level):
 
 def make_char_op(op, level, lo, hi):
     """substitute / insert the character chr(o) (o symbolic, 0..255) at symbolic position p, lo <= p < hi (None = end of
-    cookie).  At header level the backslash is excluded: inside a quoted cookie-pair "\\x" is another spelling of x, so
+    cookie).  At the levels that go through the Cookie header (header, rewritten) the backslash is excluded: inside a quoted cookie-pair "\\x" is another spelling of x, so
     inserting one does not alter the cookie."""
     def q(p: int, o: int):
         pick, c, c2, genuine = scenario()
         end = len(c) + (1 if op == "insert" else 0)
         assume(lo <= p < (end if hi is None else hi))
-        assume(0 <= o <= 255 and (level != "header" or o != 92))
+        assume(0 <= o <= 255 and (level not in ("header", "rewritten") or o != 92))
         v = chr(o)
         pp = int(p)
         if op == "insert":
@@ -698,7 +698,7 @@ def queries(tier):
         lo, hi = regions[rname]
         add("forge/%s-%s/%s" % (op, rname, level), make_char_op(op, level, lo, hi),
             base + "%s of any Latin-1 character%s (symbolic code point) at symbolic position p in the %s region [%s, %s); "
-            "read through %s" % (op, " but the backslash" if level == "header" else "", rname, lo,
+            "read through %s" % (op, " but the backslash" if level in ("header", "rewritten") else "", rname, lo,
                                  "end" if hi is None else hi, level),
             60 if rname == "msg" else 300, ["forged"], config={"op": op, "level": level, "region": rname})
     n, m = (3, 4) if not T else (4, 5)
